@@ -3036,7 +3036,9 @@ func (p *Parser) funcDecl(s *Stmt, pos Pos, long, withParens bool, names ...*Lit
 	}
 	p.got(_Newl)
 	// TODO: reject any body which isn't a compound command, like a quoted word
-	if fd.Body = p.getStmt(false, false, true); fd.Body == nil {
+	// The body is a single command with its redirections: it must not take a
+	// leading "!", nor swallow a following pipe, "&&" or "||".
+	if fd.Body = p.gotStmtPipe(&Stmt{Position: p.pos}, true); fd.Body == nil {
 		p.followErr(fd.Pos(), "foo()", noQuote("a statement"))
 	}
 	s.Cmd = fd
